@@ -53,6 +53,9 @@ def part_check_suite(ctx, corr, quick_n=1500, full_n=20000):
                            repr(ev) if ev not in (None, 'BAD') else 'a', str(ev) if ev not in (None, 'BAD') else '1',
                            "'a b'", "'a...'", "'ab'", "'a...b'", '...b', '...' + (out.strip() or 'q'), '...', 'x...b'])
         fl = rng.choice(FLAGSETS)
+        if rng.random() < 0.04 and outs:
+            # regression of repair ab6e73c: the want is everything written since the previous want, the value's repr raises
+            ev, want = 'BAD', (joined.strip() or 'a')
         cases.append((outs, out, ev, want, fl))
         evs = 'N' if ev is None else ('R' if ev == 'BAD' else 'V' + enc(repr(ev)))
         lines.append('part_check\t%s\t%s\t%s\t%s\t%s' % (fl, enc(want), enc(out), evs, enc_list(outs)))
@@ -90,7 +93,9 @@ def _spec_part_check(inp):
     cands = [''.join(outs[i:]) for i in range(len(outs))]
     ev = inp['eval']
     if ev == "'BAD'":
-        return None
+        # a value whose repr raises cannot satisfy the want by itself; the output still can (any trailing portion): a
+        # match is a pass, no match is a failure (reported as a repr-extraction failure, not a plain got/want error)
+        return any(checker_spec.check_output(c, inp['want'], **flags) for c in cands if c) or None
     if ev != 'None':
         cands.append(ev)
     if not inp['stdout'] and ev != 'None':
@@ -105,11 +110,15 @@ def _real_part_check(inp):
     rs = directive.RuntimeState(dict((n, c == '1') for n, c in zip(names, inp['flags'])))
     part = doctest_part.DoctestPart(['x'], want_lines=inp['want'].split('\n'))
     ev = inp['eval']
-    got_eval = constants.NOT_EVALED if ev == 'None' else _ast.literal_eval(ev)
+    if ev == "'BAD'":
+        from ..gen.doctests import BadRepr
+        got_eval = BadRepr()
+    else:
+        got_eval = constants.NOT_EVALED if ev == 'None' else _ast.literal_eval(ev)
     try:
         part.check(inp['stdout'], got_eval, rs, unmatched=list(inp['unmatched']))
         return True
-    except checker.GotWantException:
+    except (checker.GotWantException, checker.ExtractGotReprException):
         return False
 
 
